@@ -1,9 +1,18 @@
 """C17 -- Editor action helpers select exactly the tag, attribute and property parts.
 Thin dispatcher: one library module per half."""
+import c17_css
 import c17_html
 
-HALVES = [c17_html.run_html]
-REPLAYS = [c17_html.replay_html]
+HALVES = [c17_html.run_html, c17_css.run_css]
+
+
+def _css_replay(ctx, obj):
+    if obj.get('replay', {}).get('component') != 'css':
+        return None
+    return c17_css.replay_css(ctx, obj)
+
+
+REPLAYS = [c17_html.replay_html, _css_replay]
 
 
 def run(ctx):
